@@ -604,6 +604,11 @@ pub fn run(replay: Option<Value>) -> i32 {
         rep.require("factorised", 1000);
         rep.require("singular-rejected", 100);
     } else {
+        if only.as_deref().map(|k| k.starts_with("mismatch")).unwrap_or(false) {
+            mismatch_checks(&mut rep);
+            let k = only.clone().unwrap();
+            rep.violations.retain(|v| v.key == k);
+        }
         let bad = rep.violations.len();
         println!("replay: {}", if bad == 0 { "property holds on this case".to_string() } else { format!("VIOLATED: {}", rep.violations[0].msg) });
         return if bad == 0 { 0 } else { 1 };
